@@ -1,14 +1,30 @@
 #!/usr/bin/env python3
 """Assemble /verif/seeded/<id>/ from the sub-agents' output directories and the
-logs of tools/try_seed.sh.  usage: assemble_seeded.py <log> [<log> ...]"""
+logs of tools/try_seed.sh.
+usage: assemble_seeded.py <confirmation log>... [--recheck <log>...]
+Confirmation logs carry build/suite/demonstration results; a --recheck log
+(try_seed.sh run with RECHECK=1 against a later checker) only replaces the list
+of checks that fire."""
 import json, os, re, shutil, subprocess, sys
 
 results = {}
-for log in sys.argv[1:]:
+args = sys.argv[1:]
+recheck = []
+if '--recheck' in args:
+    i = args.index('--recheck')
+    args, recheck = args[:i], args[i + 1:]
+pat = r'(C\d+_\d+[a-z]?) build=(\d+) suite=(\S+) demo_clean=(\S+) demo_patched=(\S+) caught:\[(.*)\]'
+for log in args:
     for line in open(log):
-        m = re.match(r'(C\d+_\d+[a-z]?) build=(\d+) suite=(\d+) demo_clean=(\S+) demo_patched=(\S+) caught:\[(.*)\]', line.strip())
-        if m:
+        m = re.match(pat, line.strip())
+        if m and m.group(3) != '-':
             results[m.group(1)] = dict(build=int(m.group(2)), suite=int(m.group(3)), demo_clean=m.group(4), demo_patched=m.group(5), caught=m.group(6).split())
+for log in recheck:
+    for line in open(log):
+        m = re.match(pat, line.strip())
+        if m and m.group(1) in results:
+            results[m.group(1)]['caught'] = m.group(6).split()
+            results[m.group(1)]['rechecked'] = True
 head = subprocess.check_output(['git', '-C', '/repo', 'log', '--format=%h', '-1']).decode().strip()
 kept, dropped = [], []
 for label, r in sorted(results.items()):
@@ -31,9 +47,11 @@ for label, r in sorted(results.items()):
         dropped.append((label, reason, agent.get('summary', '')))
         continue
     dst = f'/verif/seeded/{label}'
-    if os.path.isdir(dst):
-        shutil.rmtree(dst)
-    shutil.copytree(src, dst, ignore=shutil.ignore_patterns('*.log'))
+    # a directory assembled earlier (possibly with a hand-rebased patch) is kept
+    if not os.path.isdir(dst):
+        shutil.copytree(src, dst, ignore=shutil.ignore_patterns('*.log'))
+    if os.path.exists(os.path.join(dst, 'patch.original.diff')):
+        src = dst
     meta = {
         'id': label,
         'property': prop,
@@ -48,7 +66,7 @@ for label, r in sorted(results.items()):
             'tools/try_seed.sh <dir> <label>: scratch worktree of /repo HEAD, git apply --3way patch.diff',
             'go build ./... (ok)', 'go test -vet=off -count=1 ./... (all pass)',
             'run.sh /repo (exit 0)', 'run.sh <patched worktree> (exit non-zero)',
-            'bebopcheck multi <all 19 properties> --repo <patched worktree>',
+            'bebopcheck multi <all 19 properties> --repo <patched worktree>' + (' (re-run with the final checker)' if r.get('rechecked') else ''),
         ],
         'checks_reporting_VIOLATION': caught,
         'checks_undecided': [c.replace('(undecided)', '') for c in undecided],
